@@ -170,7 +170,8 @@ def evaluate(case):
                     )
             # ---- re-interpolation matrices
             for name, t in tgrids.items():
-                fam = name.split(":")[0]
+                # one signature per defect class: targets that differ from the nodes only at very small x / all others
+                fam = "near-nodes" if name.startswith("near-nodes") else "target-grid"
                 try:
                     with warnings.catch_warnings():
                         warnings.simplefilter("ignore")
